@@ -5,6 +5,7 @@ import (
 	"context"
 	"os"
 	"os/exec"
+	"sync/atomic"
 	"time"
 )
 
@@ -22,7 +23,28 @@ func runCLI(stdin []byte, dir string, args ...string) (string, string, int) {
 	var so, se bytes.Buffer
 	cmd.Stdout, cmd.Stderr = &so, &se
 	if stdin != nil {
-		cmd.Stdin = bytes.NewReader(stdin)
+		// standard input arrives either through a pipe or as a redirected REGULAR FILE (`zlint < cert.pem`), chosen by
+		// a hash of the invocation so that both routes are exercised by every CLI check
+		h := uint32(2166136261)
+		for _, a := range args {
+			for i := 0; i < len(a); i++ {
+				h = (h ^ uint32(a[i])) * 16777619
+			}
+		}
+		h = (h ^ uint32(len(stdin))) * 16777619
+		if h%2 == 0 {
+			cmd.Stdin = bytes.NewReader(stdin)
+			cliStdinPipe.Add(1)
+		} else if f, err := os.CreateTemp(dir, "stdin."); err == nil {
+			_, _ = f.Write(stdin)
+			_, _ = f.Seek(0, 0)
+			cmd.Stdin = f
+			defer func() { f.Close(); os.Remove(f.Name()) }()
+			cliStdinFile.Add(1)
+		} else {
+			cmd.Stdin = bytes.NewReader(stdin)
+			cliStdinPipe.Add(1)
+		}
 	}
 	err := cmd.Run()
 	code := 0
@@ -35,3 +57,6 @@ func runCLI(stdin []byte, dir string, args ...string) (string, string, int) {
 	}
 	return so.String(), se.String(), code
 }
+
+// how often standard input was a pipe / a regular file (evidence)
+var cliStdinPipe, cliStdinFile atomic.Int64
